@@ -4,6 +4,8 @@ package c09
 import (
 	"bytes"
 	"fmt"
+	"sync"
+	"sync/atomic"
 
 	"git.metabarcoding.org/obitools/obitools4/obitools4/pkg/obialign"
 	"git.metabarcoding.org/obitools/obitools4/obitools4/pkg/obiseq"
@@ -320,11 +322,105 @@ func runRandomD1(c *core.Ctx) {
 	c.Count("evaluations", per)
 }
 
+// runConcurrent: the kernels are called by parallel workers (obiclean, obitag, obiconsensus ...): every
+// answer given while other goroutines run the same kernels must be the answer given alone. The
+// sequential answers are themselves compared with the reference first.
+func runConcurrent(c *core.Ctx) {
+	type pair struct {
+		a, b      []byte
+		bound     int
+		s, l      int // FastLCSScore
+		e, el, ee int // FastLCSEGFScore
+		v, pos    int // D1Or0
+		x, y      byte
+	}
+	var pairs []pair
+	for k := 0; k < c.Pick(40, 120); k++ {
+		n := 20 + c.Rng.Intn(280)
+		a := gen.DNA(c.Rng, n)
+		d := c.Rng.Intn(6)
+		b := gen.Mutate(c.Rng, a, d)
+		if len(b) == 0 {
+			b = []byte("g")
+		}
+		bound := []int{-1, d, d + 3}[c.Rng.Intn(3)]
+		if cause, detail := checkLCS(a, b, bound, nil); cause != "" {
+			c.Violate(cause, "FastLCSScore disagrees with the full-matrix reference", detail)
+			return
+		}
+		p := pair{a: a, b: b, bound: bound}
+		p.s, p.l = obialign.FastLCSScore(bs(a), bs(b), bound, nil)
+		p.e, p.el, p.ee = obialign.FastLCSEGFScore(bs(a), bs(b), bound, nil)
+		p.v, p.pos, p.x, p.y = obialign.D1Or0(bs(a), bs(b))
+		pairs = append(pairs, p)
+	}
+	workers := []int{2, 4, 8, 16}[c.Idx%4]
+	rounds := c.Pick(6, 20)
+	type bad struct {
+		cause string
+		det   map[string]any
+	}
+	found := make(chan bad, workers)
+	var wg sync.WaitGroup
+	var evals atomic.Int64
+	for w := 0; w < workers; w++ {
+		wg.Add(1)
+		go func(w int) {
+			defer wg.Done()
+			var own []uint64
+			report := func(cause string, p pair, got any) {
+				select {
+				case found <- bad{cause, map[string]any{"a": string(p.a), "b": string(p.b), "bound": p.bound, "goroutines": workers, "got": got,
+					"alone": map[string]any{"lcs": []int{p.s, p.l}, "egf": []int{p.e, p.el, p.ee}, "d1or0": []int{p.v, p.pos}}}}:
+				default:
+				}
+			}
+			for r := 0; r < rounds; r++ {
+				for i := range pairs {
+					p := pairs[(i*7+w*13+r)%len(pairs)]
+					func() {
+						defer func() {
+							if e := recover(); e != nil {
+								report("concurrent:panic", p, fmt.Sprint(e))
+							}
+						}()
+						evals.Add(4)
+						if s, l := obialign.FastLCSScore(bs(p.a), bs(p.b), p.bound, nil); s != p.s || l != p.l {
+							report("concurrent:lcs:fresh-buffer", p, []int{s, l})
+						}
+						if s, l := obialign.FastLCSScore(bs(p.a), bs(p.b), p.bound, &own); s != p.s || l != p.l {
+							report("concurrent:lcs:own-buffer", p, []int{s, l})
+						}
+						if e, el, ee := obialign.FastLCSEGFScore(bs(p.a), bs(p.b), p.bound, nil); e != p.e || el != p.el || ee != p.ee {
+							report("concurrent:egf:fresh-buffer", p, []int{e, el, ee})
+						}
+						if v, pos, x, y := obialign.D1Or0(bs(p.a), bs(p.b)); v != p.v || pos != p.pos || x != p.x || y != p.y {
+							report("concurrent:d1or0", p, []int{v, pos})
+						}
+					}()
+				}
+			}
+		}(w)
+	}
+	wg.Wait()
+	close(found)
+	c.Count("evaluations", int(evals.Load()))
+	c.Count("concurrent_evaluations", int(evals.Load()))
+	c.Key("concurrent/%d/%d", workers, len(pairs)/10)
+	seen := map[string]bool{}
+	for b := range found {
+		if !seen[b.cause] {
+			seen[b.cause] = true
+			c.Violate(b.cause, "a kernel gives, while other goroutines run the same kernels, an answer different from the one it gives alone", b.det)
+		}
+	}
+}
+
 func init() {
 	core.Register(&core.Property{
 		ID:    "C09",
 		Level: "exploration",
-		Rule: "FastLCSScore / FastLCSEGFScore / D1Or0 executed next to a full-matrix DP with an independent IUPAC table: exhaustively on all ordered pairs of strings over {a,c,g,t} of length <= 4 (quick) / <= 5 (thorough) x bounds -1,0,1,2,3 (D1Or0: length <= 5 / 6), all 16x16 IUPAC symbol pairs, and random pairs up to 400 nt with ambiguity codes, mixed case, bounds d-1, d, d+1 around the true number of differences; reused vs fresh scratch buffer; both argument orders. " +
+		Rule: "FastLCSScore / FastLCSEGFScore / D1Or0 executed next to a full-matrix DP with an independent IUPAC table: exhaustively on all ordered pairs of strings over {a,c,g,t} of length <= 4 (quick) / <= 5 (thorough) x bounds -1,0,1,2,3 (D1Or0: length <= 5 / 6), all 16x16 IUPAC symbol pairs, and random pairs up to 400 nt with ambiguity codes, mixed case, bounds d-1, d, d+1 around the true number of differences; reused vs fresh scratch buffer; both argument orders; 2-16 goroutines calling the three kernels at once (fresh and per-goroutine buffers) must get the answers the kernels give alone, also under the race detector. " +
 			"distinct_nontrivial = distinct (first string, length of second string) classes of non-empty pairs (exhaustive part; the pairs themselves are counted in counters.exhaustive_pairs) + distinct (length class, length difference, true difference count, ambiguity rate) classes (random part)",
 		Assume: []string{"the reference DP (max LCS, then shortest alignment) is the meaning of 'LCS length and shortest alignment achieving it'", "sequences are non-empty and over the IUPAC alphabet"},
 		Subs: []core.Sub{
@@ -334,7 +430,9 @@ func init() {
 			{Name: "egf", N: core.Const(16, 64), Run: runEGF},
 			{Name: "d1-exhaustive", N: core.Const(nShards, nShards), Run: runExhaustiveD1},
 			{Name: "d1-random", N: core.Const(32, 128), Run: runRandomD1},
+			{Name: "concurrent", N: core.Const(16, 64), Run: runConcurrent, Race: true, NRace: core.Const(4, 8), TimeoutS: 300},
 		},
 		MinNontrivial: 1000,
+		RaceFiles:     []string{"pkg/obialign/fastlcsegf.go", "pkg/obialign/fastlcs.go", "pkg/obialign/is_d0_or_d1.go", "pkg/obialign/fourbitsencode.go"},
 	})
 }
